@@ -298,6 +298,35 @@ def sync_fanin_leaves(k0):
     return out
 
 
+def multi_edge_decls(k0):
+    """C01/C02: a consumer that takes TWO values of one multi-value provider and, besides, a value whose producer has a
+    dependency of its own (so it is not a root), next to Async leaves (the locals are then declared ahead of the calls: a
+    consumer emitted too early compiles and reads a zero value).  Counting an edge once where the other side counts it per
+    argument (or the reverse) shows here and nowhere in the simple shapes."""
+    out = []
+    k = k0
+    for mv_async in (False, True):
+        for depth in (1, 2):
+            for perm in range(4):
+                P = "W%d" % k
+                k += 1
+                T = lambda j: "*%sT%d" % (P, j)
+                X1 = "*%sX1" % P
+                last = T(2 + depth)
+                C, Q = T(3 + depth), T(4 + depth)
+                rootreq = [[T(1), X1, last, C, Q], [last, T(1), X1, C, Q], [T(1), last, X1, C, Q], [C, T(1), Q, X1, last]][perm]
+                provs = [dict(kind="fn", fn="New%sT0" % P, requires=rootreq, provides=[[T(0)]], fallible=False, node=0, bind=[], **{"async": False}),
+                         dict(kind="fn", fn="New%sT1" % P, requires=[], provides=[[T(1)], [X1]], fallible=False, node=1, bind=[], **{"async": mv_async}),
+                         dict(kind="fn", fn="New%sT2" % P, requires=[], provides=[[T(2)]], fallible=False, node=2, bind=[], **{"async": False})]
+                for j in range(depth):
+                    provs.append(dict(kind="fn", fn="New%sT%d" % (P, 3 + j), requires=[T(2 + j)], provides=[[T(3 + j)]], fallible=False, node=3 + j, bind=[], **{"async": False}))
+                provs.append(dict(kind="fn", fn="New%sT%d" % (P, 3 + depth), requires=[], provides=[[C]], fallible=False, node=3 + depth, bind=[], **{"async": True}))
+                provs.append(dict(kind="fn", fn="New%sT%d" % (P, 4 + depth), requires=[], provides=[[Q]], fallible=False, node=4 + depth, bind=[], **{"async": True}))
+                out.append(dict(name="Init" + P, prefix=P, ret=T(0), provs=provs, layout=list(range(len(provs))), kind="valid",
+                                meta=dict(n=len(provs), nargs=0, nf=0, structnode=None, second=[1], binds=[], values=[])))
+    return out
+
+
 def ctx_mid_decls(k0):
     """context.Context is an ordinary unsupplied dependency discovered between other injector arguments, and a needed
     provider is Async: ctx must be moved to the front without disturbing the other parameters (C10)."""
